@@ -63,6 +63,7 @@ def run(rep, tier):
     cli = f.crate("pest_debugger", kind="Executable")
     if cli is not None and cli is not dbg:
         recvorder(rep, cli)
+        startuporder(rep, cli)
 
 
 def spawner(dbg):
@@ -437,3 +438,58 @@ def recvorder(rep, cli):
                 break
     if n == 0:
         r.lost("the CLI function that calls DebuggerContext::run")
+
+
+def startuporder(rep, cli):
+    r = rep.rule("C17.STARTUPORDER", 1,
+                 "in the bundled CLI no function adds breakpoints after it has started a session on the same path: the "
+                 "parser thread starts running inside DebuggerContext::run, so breakpoints added afterwards race with "
+                 "the parse (with `-r` and `-b` given together the whole input is parsed before the first breakpoint "
+                 "exists and every later `c` reports end-of-input)")
+    RUN = "DebuggerContext::run"
+    ADD = ("DebuggerContext::add_breakpoint", "DebuggerContext::add_all_rules_breakpoints")
+
+    def direct(fn, names):
+        return any(kind(x) in ("Call", "MethodCall") and any(str(callee(x)).endswith(n) for n in names)
+                   for x in walk(fn["body"]))
+    starters = set(f["path"] for f in cli.bodies if f.get("body") is not None and direct(f, (RUN,)))
+    adders = set(f["path"] for f in cli.bodies if f.get("body") is not None and direct(f, ADD))
+    if not starters or not adders:
+        r.lost("CLI wrappers of DebuggerContext::run / add_breakpoint")
+        return
+
+    def is_start(n):
+        cal = str(callee(n))
+        return cal.endswith(RUN) or cal in starters
+
+    def is_add(n):
+        cal = str(callee(n))
+        return any(cal.endswith(a) for a in ADD) or cal in adders
+    n = 0
+    for fn in cli.bodies:
+        if fn.get("body") is None or fn.get("exp"):
+            continue
+        nodes = [x for x in walk(fn["body"]) if kind(x) in ("Call", "MethodCall")]
+        if not (any(is_start(x) for x in nodes) and any(is_add(x) for x in nodes)):
+            continue
+        n += 1
+        key = fn["path"].replace("pest_debugger::", "")
+        r.instance(key, where(fn["body"]))
+        try:
+            paths = list(PathEnum(fn).paths())
+        except hirq.TooManyPaths:
+            r.note("%s: too many paths" % key)
+            continue
+        for (ev, out) in paths:
+            si = hirq.index_of(ev, lambda e: e.kind == "call" and is_start(e.node))
+            if si < 0:
+                continue
+            late = [e for e in ev[si + 1:] if e.kind == "call" and is_add(e.node)]
+            if late:
+                r.violation(key, where(late[0].node),
+                            "%s adds a breakpoint after it has started the session: the parse is already running (or "
+                            "finished) when the breakpoint appears, so which hits are reported depends on timing"
+                            % fn["name"])
+                break
+    if n == 0:
+        r.lost("a CLI function that both starts a session and adds breakpoints (start-up from command-line arguments)")
